@@ -295,6 +295,70 @@ macro_rules! avec {
 }
 
 // ------------------------------------------------------------------------------------------
+// VecDeque (front = index 0)
+// ------------------------------------------------------------------------------------------
+pub struct VecDeque<T> {
+    v: Vec<T>,
+}
+impl<T> Default for VecDeque<T> {
+    fn default() -> Self {
+        Self { v: Vec::default() }
+    }
+}
+impl<T> VecDeque<T> {
+    pub fn new() -> Self {
+        Self::default()
+    }
+    pub fn len(&self) -> usize {
+        self.v.len
+    }
+    pub fn is_empty(&self) -> bool {
+        self.v.len == 0
+    }
+    pub fn push_back(&mut self, x: T) {
+        self.v.push(x)
+    }
+    pub fn pop_back(&mut self) -> Option<T> {
+        self.v.pop()
+    }
+    pub fn pop_front(&mut self) -> Option<T> {
+        if self.v.len == 0 {
+            return None;
+        }
+        let out = self.v.items[0].take();
+        let mut i = 0;
+        while i + 1 < VCAP {
+            if i + 1 < self.v.len {
+                self.v.items[i] = self.v.items[i + 1].take();
+            }
+            i += 1;
+        }
+        self.v.len -= 1;
+        out
+    }
+    pub fn front(&self) -> Option<&T> {
+        self.v.first()
+    }
+    pub fn back(&self) -> Option<&T> {
+        self.v.last()
+    }
+    pub fn get(&self, i: usize) -> Option<&T> {
+        self.v.get(i)
+    }
+    pub fn iter(&self) -> VecIter<'_, T> {
+        self.v.iter()
+    }
+    pub fn drain(&mut self, r: core::ops::RangeFull) -> VecIntoIter<T> {
+        self.v.drain(r)
+    }
+}
+impl<T> FromIterator<T> for VecDeque<T> {
+    fn from_iter<I: IntoIterator<Item = T>>(it: I) -> Self {
+        Self { v: Vec::from_iter(it) }
+    }
+}
+
+// ------------------------------------------------------------------------------------------
 // generic slot map used by BTreeMap (sorted), IndexMap (insertion order), HashMap (arbitrary)
 // ------------------------------------------------------------------------------------------
 
@@ -705,6 +769,23 @@ impl<'a, K: Ord, V, const ORD: u8> OccupiedEntry<'a, K, V, ORD> {
         self.m.remove_at(self.i).1
     }
     pub fn remove_entry(self) -> (K, V) {
+        self.m.remove_at(self.i)
+    }
+    /// IndexMap's OccupiedEntry::swap_remove_entry
+    pub fn swap_remove_entry(self) -> (K, V) {
+        let i = self.i;
+        let out = match self.m.items[i].take() {
+            Some(kv) => kv,
+            None => unreachable!(),
+        };
+        let last = self.m.len - 1;
+        if i != last {
+            self.m.items[i] = self.m.items[last].take();
+        }
+        self.m.len -= 1;
+        out
+    }
+    pub fn shift_remove_entry(self) -> (K, V) {
         self.m.remove_at(self.i)
     }
 }
